@@ -784,18 +784,18 @@ func buildFamilies(thorough bool, seed int64) []*family {
 	for f := 1; f < 7; f++ {
 		add(fmt.Sprintf("classes-all/type=1,flags=%d", f), genClassesAll(1, f))
 	}
-	for k := 0; k < 6; k++ {
+	for k := 0; k < 8; k++ {
 		add(fmt.Sprintf("grid/4096types-x-4classes-x-8flags#%d", k), genGridTypes)
 		add(fmt.Sprintf("grid/4096classes-x-4types-x-8flags#%d", k), genGridClasses)
 		add(fmt.Sprintf("bitflip1/3000bases-x-35neighbours#%d", k), genBitflip1)
 		add(fmt.Sprintf("bitflip2/200bases-x-595neighbours#%d", k), genBitflip2)
 		add(fmt.Sprintf("name-x-type-x-class-grid#%d", k), genNameTypeClassGrid)
 	}
-	for k := 0; k < 12; k++ {
+	for k := 0; k < 20; k++ {
 		add(fmt.Sprintf("random-triples#%d", k), genRandomTriples)
 	}
 	weight = 1
-	for k := 0; k < 4; k++ {
+	for k := 0; k < 8; k++ {
 		for _, nf := range nameFams {
 			c := randCell()
 			add(fmt.Sprintf("%s/%s#%d", nf.n, c.String(), k), nf.f(c))
